@@ -21,12 +21,13 @@ The repo's interpreter (/venv/bin/python) has no numpy, so the implementation si
                  replaced (id() reuse), kept views of a mutated base, fresh views, caller memmaps, arrays below the
                  threshold, object arrays, random histories; oracle: every task sees the values its argument has at
                  dispatch time (F57, known: the same object mutated in place between calls of a managed Parallel);
-                 model: `history` (the identity-keyed temporary dumps, `runHistory`). With VERIF_C19_VANISH=1 also the
-                 forced "lagging resource tracker" schedule (a finding on the unchanged tree, reported).
+                 model: `history` (the identity-keyed temporary dumps, `runHistory`). Also the forced "lagging
+                 resource tracker" schedule (F60, known: the temporary dump vanishes before the worker loads it in a
+                 repeated call of an unmanaged Parallel); 2 cases quick, 6 thorough; VERIF_C19_VANISH=0 switches it off.
   modes        : `Parallel(mmap_mode=…)` for every documented value {None, r, r+, w+, c} x max_nbytes {None, small} x
                  loky / multiprocessing: values, what a task's write does (numpy.memmap semantics), what the caller
-                 sees afterwards; model `forward` with `mmap_mode is None` (repair F58; the (None, small) cases run
-                 only with VERIF_C19_F58=1 until the repair is in /repo)
+                 sees afterwards; model `forward` with `mmap_mode is None` (F58, fixed in /repo by 2220b4d;
+                 VERIF_C19_F58=0 skips the (None, small) cases, for a tree without the repair)
   threads      : two threads inside joblib.load / joblib.dump at once, the overlap FORCED by parking thread A after the
                  k-th return from any read/readinto/write/(de)compress below the call while thread B runs a whole
                  load/dump (every k, every compressor); oracle: each gets / writes its own array
@@ -89,7 +90,8 @@ TRUSTED_EXTRA = [
     "in the running thread before it continues): modelled-not-verified; thread interleavings are not in the Lean model",
     "F57 (known): the temporary dump of an argument is keyed by the identity of the array object and written once per "
     "temp folder (C19.history_stale_counterexample / history_faithful_partial); F58: the Lean model has the repaired "
-    "`mmap_mode is not None` condition (fixes/F58-…diff), the cases that distinguish it run with VERIF_C19_F58=1",
+    "`mmap_mode is not None` condition (fixed in /repo by 2220b4d); F60 (known): the forced lagging-resource-tracker "
+    "schedule stops and continues loky's resource tracker with SIGSTOP/SIGCONT (modelled-not-verified, not in the Lean model)",
     "known findings F16 and F27 (see known_findings.json) are reproduced on every run (F27: read_inverts_write_partial / "
     "itemsize_zero_counterexample); F24-F26 are fixed in /repo (b514cf6, 5cddabe): the model is the repaired code, the "
     "witnesses against the pre-fix code are the C19.prefix_* theorems over the …PreFix definitions; on a tree without the "
